@@ -147,3 +147,12 @@ Proof.
     apply in_map_iff in Hmp. destruct Hmp as [s [He Hs]]. cbn [fst]. rewrite <- He. unfold init. rewrite repeat_length.
     apply index_of_lt. apply (Permutation_in _ (Permutation_sym (sorted_ids_perm ids))), Hs.
 Qed.
+
+Lemma range_list_in a b i : In i (range_list a b) <-> (a <= i <= b)%Z.
+Proof.
+  unfold range_list. rewrite in_map_iff. split.
+  - intros [k [Hk Hin]]. apply in_seq in Hin. lia.
+  - intros H. exists (Z.to_nat (i - a)). split; [lia|]. apply in_seq. lia.
+Qed.
+Lemma range_list_length a b : length (range_list a b) = Z.to_nat (b - a + 1).
+Proof. unfold range_list. rewrite map_length, seq_length. reflexivity. Qed.
